@@ -199,6 +199,17 @@ def population_update(rep, prog):
         rep.ok("C09.population-update", prog, fn, c, "success branch: two daughters appended to %s and one index recorded, under critical" % dest.pop().split("#")[0])
     else:
         rep.violation("C09.population-update", prog, fn, c, "wrong number of appends", "the success branch appends %d cells and records %d indices (expected 2 and 1): a cell is lost or duplicated" % (len(cell_pushes), len(idx_pushes)))
+    # the mother is recorded for removal exactly when her two daughters are added: same facts at the three pushes
+    if len(cell_pushes) == 2 and len(idx_pushes) == 1:
+        from ..model import facts_at
+        fset = lambda n_: {(render(a_).replace(" ", ""), t_) for a_, t_ in facts_at(fn, fi, n_)}
+        fi_, fd = fset(idx_pushes[0]), [fset(x) for x in cell_pushes]
+        if all(fi_ == d_ for d_ in fd):
+            rep.ok("C09.population-update", prog, fn, idx_pushes[0], "the mother's index is recorded under the same conditions as the two daughters are appended (%s)" % ", ".join(sorted(("" if t_ else "!") + a_[:40] for a_, t_ in fi_)))
+        else:
+            diff = sorted(set().union(*fd) ^ fi_)
+            rep.violation("C09.population-update", prog, fn, idx_pushes[0], "mother removed under other conditions than the daughters are added",
+                          "cell_divider::run records the mother for removal and appends the daughters under different conditions (differing in %s): when they disagree a mother whose division failed is erased without daughters (the cell vanishes), or daughters are added while the mother stays" % ", ".join(("" if t_ else "not ") + "'" + a_[:60] + "'" for a_, t_ in diff[:2]))
     # ids
     ids = []
     for n in walk(fn["body"]):
